@@ -141,6 +141,11 @@ func ShieldProfile(seed int64, out *Recorder, nOps int) *Chain {
 	if scenario >= 3 && cfg.NVal >= 2 && newRng(seed*17+3).Intn(5) == 0 {
 		scenario = 3 // a claim whose payout cannot be made: the provider's validator double-signs while the claim is open
 	}
+	// history seeds that the export profile maps to this profile (seed % 5 == 3): every other one opens with a scripted claim on
+	// one of two same-block purchases, so that exports are regularly taken while such a pair is waiting in the expiry queue
+	if seed%5 == 3 && (seed/5)%2 == 0 && scenario > 2 {
+		scenario = int((seed / 10) % 3)
+	}
 	if scenario <= 3 {
 		for i := 0; i < cfg.NAcc; i++ { // every account a certified identity: the stake round of the scripted claim must reach quorum
 			msg := certtypes.NewMsgIssueCertificate(certtypes.AssembleContent("identity", c.Accts[i].Addr.String()), "", "", "id", c.Accts[certifier].Addr)
@@ -536,7 +541,7 @@ func shieldScenario(c *Chain, rng interface{ Intn(int) int }, kind int, sc Shiel
 	// in one history out of three the buyer makes two purchases of the pool in the same block: two entries of one purchase list
 	// with the same protection end time (they share one slot of the expiring-purchase queue); the claim is filed against the
 	// larger one, whose deletion time then moves while the other's stays (own random stream)
-	double := newRng(c.Cfg.Seed*31+11).Intn(3) == 0 && shield >= 3*sc.MinPurchase
+	double := (newRng(c.Cfg.Seed*31+11).Intn(3) == 0 || (c.Cfg.Seed%5 == 3 && (c.Cfg.Seed/5)%2 == 0)) && shield >= 3*sc.MinPurchase
 	if double {
 		shield -= sc.MinPurchase
 	}
